@@ -60,17 +60,56 @@ fn map_sets(ents: &[(u8, usize)]) -> MS {
     }
     MapUnion::new(m)
 }
+//@ heavy=1 tier=thorough
 harness!(c06_map_empty, 5, { c06_on::<MS>(map_sets(&[]), false); });
+//@ heavy=1 tier=thorough
 harness!(c06_map_one_key_bottom_value, 5, { c06_on::<MS>(map_sets(&[(3, 0)]), false); });
-//@ heavy=1
+//@ heavy=1 tier=thorough
 harness!(c06_map_one_key_2, 6, { c06_on::<MS>(map_sets(&[(3, 2)]), true); });
-//@ heavy=1
+//@ heavy=1 tier=thorough
 harness!(c06_map_two_keys, 6, { c06_on::<MS>(map_sets(&[(0, 1), (1, 1)]), true); });
 //@ heavy=1 tier=thorough
 harness!(c06_map_two_keys_one_bottom, 6, { c06_on::<MS>(map_sets(&[(0, 0), (1, 2)]), true); });
 
-// union-find reachable through the API (one symbolic union over 4 items)
-//@ heavy=1
+// union-find values given by their parent entries (symbolic items/parents over 4 items, acyclic)
+fn uf_entries(ents: &[(u8, u8)]) -> Uf {
+    let mut m = crate::cap::CapMap::<u8, core::cell::Cell<u8>, 4>::default();
+    let mut i = 0;
+    while i < ents.len() {
+        m.keys[i] = Some(ents[i].0);
+        m.vals[i] = Some(core::cell::Cell::new(ents[i].1));
+        m.len = i + 1;
+        i += 1;
+    }
+    lattices::union_find::UnionFind::new(m)
+}
+fn c06_uf_on(uf: Uf, expect_atoms_possible: bool) {
+    let bot = uf.is_bot();
+    let mut reformed = Uf::default();
+    let mut n = 0usize;
+    for atom in uf.clone().atomize() {
+        assert!(!atom.is_bot(), "C06 atomize returned a bottom atom");
+        reformed.merge(atom);
+        n += 1;
+    }
+    assert!((n == 0) == bot, "C06 atomize is empty exactly for bottom: violated");
+    assert!(reformed.model().eqv(&uf.model()), "C06 merging the atoms into bottom does not reform the value (model)");
+    cov!(!expect_atoms_possible || n > 0, "has atoms");
+    cov!(n == 0, "no atoms");
+}
+harness!(c06_uf_one_entry, 6, {
+    let (a, b) = (below(4), below(4));
+    c06_uf_on(uf_entries(&[(a, b)]), true);
+});
+//@ heavy=1 tier=thorough
+harness!(c06_uf_two_entries, 7, {
+    let (a, b, c, d) = (below(4), below(4), below(4), below(4));
+    crate::sym::assume(a != c); // distinct keys
+    crate::sym::assume(!(b == c && d == a)); // a forest, not a 2-cycle
+    c06_uf_on(uf_entries(&[(a, b), (c, d)]), true);
+});
+// union-find reachable through the API (one symbolic union over 4 items), compared with `==` as well
+//@ heavy=1 tier=thorough
 harness!(c06_uf, 7, {
     let uf = Uf::sym();
     let nb = !uf.is_bot();
